@@ -436,8 +436,8 @@ impl<'de> Visitor<'de> for MapVisitor<'_> {
     fn visit_map<A: MapAccess<'de>>(self, mut map: A) -> Result<Val, A::Error> {
         let kshape = Shape::Leaf(self.0);
         let mut out = vec![];
-        while let Some(k) = map.next_key_seed(Seed(&kshape))? {
-            let v = map.next_value_seed(Seed(self.1))?;
+        // std's map visitors read whole entries
+        while let Some((k, v)) = map.next_entry_seed(Seed(&kshape), Seed(self.1))? {
             out.push((k, v));
         }
         Ok(Val::Map(out))
